@@ -7,6 +7,10 @@ ENGINES={
  "lexmc":("harness/src/lexmc.rs","exhaustive prefix-tree exploration of all strings up to a length bound through the real lexer"),
 }
 CHECKS={
+ "C04":dict(engine="progmc",category="fault_enumeration",
+   text="Fault enumeration: 9 fault kinds (thrown string/object, bad index, type mismatch, failed assert, too few/many arguments, unknown identifier, calling null) planted at 15 sites (inline, call depth 1 and 3, method, each/fold callbacks driven by native adaptors, generator body, @+ / derived and direct comparison metakeys, list/string/call/map construction) under 7 handler structures (catch, finally, typed catch chains in all orders, nested handlers that match or rethrow) x 4 result uses; plus every combination of try/catch/finally block exits (fall-through, return, break, continue, throw) inside a loop inside a function with a later error in the same frame; plus errors caught inside open string/list/tuple/map/call constructions. Differential against the reference interpreter, and after every run the VM's internal stacks must be empty (hook H1).",
+   note="Trusted: kref and the renderer. Runtime error message texts are not compared (only thrown values are). A throwing finally block is not generated (unspecified).",
+   technique="exhaustive fault-site x handler enumeration + differential against a reference model + internal-state invariant"),
  "C03":dict(engine="progmc",category="exploration",
    text="Complete enumeration of match expressions: 23 subject values x every single arm over 47 patterns (literals, ids, wildcards, nested tuple patterns with leading/trailing ellipsis, map patterns with as, typed patterns, patterns that rebind the subject variable) x else/no else x 4 result uses; guards incl. failing guards on the last arm; all two-arm lists over a 16-pattern core; or-alternatives x guards with side effects; multi-subject rows; plus multi-assignment over 5 target kinds x 17 right-hand sides and for-argument lists x 10 sequences. Each arm prints its index and bindings. Differential against the reference interpreter.",
    note="Trusted: kref and the renderer; bounded sizes. Constructs the guide leaves open (named ellipsis over maps/strings/ranges, `()` pattern, parenthesised for arguments) are not generated or not compared.",
